@@ -443,3 +443,8 @@ PROPS["C08"]["files"] = list(dict.fromkeys(PROPS["C08"]["files"] + ["proofs/Cont
 
 PROPS["C06"]["rule"] = PROPS["C06"]["rule"] + (" || engine driver under C06: every application/history is served a second time with every request for a flag <= FLAG_RESERVED removed from the functions' "
     "FlagSet/FlagReset lists (metamorphic twin, case pair mkE17): responses, stored sessions and calls of the two runs must be identical (engine_violations_c06x)")
+
+# C20 (agent flags follow-up 2) and C02 (agent render follow-up 2)
+PROPS["C20"]["files"] = list(dict.fromkeys(PROPS["C20"]["files"] + ["proofs/RenderProofs.v", "proofs/FlagProofs3.v"]))
+PROPS["C02"]["prop_files"] = PROPS["C02"].get("prop_files", [PROPS["C02"]["prop_file"]]) + ["props/C02walk.v"]
+PROPS["C02"]["files"] = list(dict.fromkeys(PROPS["C02"]["files"] + ["proofs/WalkProofs.v", "props/C02walk.v"]))
